@@ -80,14 +80,14 @@ def manifest():
         version=1,
         setup_cmd='python3 -c "import sys; sys.path.insert(0, \'/verif\'); import vt.driver" && verus --version',
         hooks=dict(guard='cargo feature `verif` (and cfg(kani), set by Kani itself)',
-                   enable='cargo test --offline --features verif --lib verif_rac (probe/replay driver only; Verus reads the sources and needs no hook); cargo kani sets cfg(kani)',
+                   enable='cargo test --offline --features verif --lib verif_rac (probe / replay driver and the bounded stand-ins; Verus reads the sources and needs no hook); cargo kani sets cfg(kani)',
                    baseline_off_cmd='cd /repo && cargo test --workspace --no-fail-fast --offline',
                    source_commits=hook_commits, add_only=True),
         engines=[dict(name='vt', path='/verif/vt', serves_properties=sorted(PROPS),
-                      kind_free_text='extractor + rule table + diff-transport weaver + Verus runner + classifier (python3); contracts in /verif/contracts')],
+                      kind_free_text='extractor + rule table + ghost-erasure weaver + Verus / Kani runner + classifier + bounded stand-ins through the real crate (python3); contracts in /verif/contracts, oracles in /verif/rac')],
         checks=checks,
         not_applicable=na,
-        notes='See DESIGN.md. exit 0 = every obligation discharged; exit 1 = a named obligation generated from /repo failed (VIOLATION); exit 2 = undecided (tool limit / lost anchor / rlimit), never an alarm.',
+        notes='See DESIGN.md. exit 0 = every obligation discharged and the bounded stand-in of the property found nothing outside known_findings.txt; exit 1 = a named obligation generated from /repo failed, or a bounded stand-in / the probe after an undecided run found a concrete failing input on the real crate (VIOLATION); exit 2 = undecided (tool limit / lost anchor / rlimit), never an alarm.',
     )
     json.dump(m, open(os.path.join(VERIF, 'MANIFEST.json'), 'w'), indent=1)
     import jsonschema
